@@ -430,6 +430,21 @@ func filterMain(args []string) {
 				impl = "wrap"
 			}
 			emit(fCase{Fam: "filter", Kind: "tree", Impl: impl, Leaves: ls, Shape: sh})
+			if rep == 0 {
+				// the same tree far down: under 9, 17 or 64 levels of and / or nodes with one child each, and
+				// once more next to a sibling that decides nothing (and-ed with an empty and, or-ed with an empty or)
+				deep := sh
+				for k := []int{9, 17, 64}[rng.Intn(3)]; k > 0; k-- {
+					o := []string{"and", "or"}[k%2]
+					kids := []fNode{deep}
+					if k%5 == 0 {
+						kids = []fNode{{O: o, C: []fNode{}}, deep}
+					}
+					deep = fNode{O: o, C: kids}
+				}
+				stt.class("tree:deep")
+				emit(fCase{Fam: "filter", Kind: "tree", Impl: impl, Leaves: ls, Shape: deep})
+			}
 		}
 	}
 	// random pairs of real values: the abstract value is the real byte
